@@ -470,6 +470,10 @@ def check_observations(script, out, stats, atomic_reload=False):
             stats["rc"]["%s:%d" % (kind, rc)] = stats["rc"].get("%s:%d" % (kind, rc), 0) + 1
         if rc != world.exp_rc[k]:
             fails.append(("corr", "operation %d (%s) returned %d, set semantics says %d" % (k, kind, rc, world.exp_rc[k])))
+            if any(kd.startswith("reload") and kd != "reload-failed" for kd in world.kinds[:k]):
+                # the tables after a successful full reload are not "others + new set": the reload did not replace the cache's data
+                fails.append(("reload", "after a successful full reload, operation %d (%s) returned %d where the table that holds exactly the "
+                              "new data set returns %d: the reload left old records behind or lost new ones" % (k, kind, rc, world.exp_rc[k])))
     for l in out:
         if not l.startswith("R "):
             continue
@@ -769,7 +773,7 @@ def run(pid, tier):
         if kind in seen_kinds:
             continue
         seen_kinds.add(kind)
-        if kind == "corr":
+        if kind == "corr" or (kind == "reload" and pid != "C06"):
             continue
         text = script.text()
         if kind == "race" and tier == "quick":
@@ -780,7 +784,8 @@ def run(pid, tier):
         clause = {"race": "no execution contains a data race on table state",
                   "crash": "the implementation aborted under concurrent use (assertion / signal)",
                   "lin": "every read returns the answer for the table contents at some instant between call and return",
-                  "mono": "no reader observes the new set and afterwards the old one"}[kind]
+                  "mono": "no reader observes the new set and afterwards the old one",
+                  "reload": "a full reload replaces the cache's data: afterwards exactly the new data set is present"}[kind]
         full = rep.replay_path(kind) + ".full.ops"
         with open(full, "w") as f:
             f.write(script.text())
@@ -790,7 +795,7 @@ def run(pid, tier):
                           pid, clause, detail, ir_text, full, "\n".join("# " + l for l in err.splitlines()[:12]), text,
                           "\n".join("# " + l for l in tsan.splitlines()[:70])))
     corr = [f for f in failures if f[0] == "corr"]
-    real = [f for f in failures if f[0] != "corr"]
+    real = [f for f in failures if f[0] != "corr" and not (f[0] == "reload" and pid != "C06")]
     if pid == "C06":
         for path, xl, tsan in xt_lines:
             if "saw_new_pfx_with_old_keys=1" in xl:
